@@ -37,7 +37,7 @@ def run_task(task: dict) -> dict:
     t0 = time.time()
     req = Request.make(task["assignment"], task["formats"])
     res = {"request": req.asdict(), "dimvec": task["dimvec"], "N": task["N"], "status": "ok",
-           "stats": {}, "wall_s": 0.0, "spec": task.get("spec")}
+           "stats": {}, "wall_s": 0.0, "spec": task.get("spec"), "symbolic_dimension": task.get("symbolic_dimension", False)}
     try:
         comp = compile_request(req, kinds=("evaluate",), optimise=True)
         if comp.refusal:
@@ -60,6 +60,11 @@ def _explore_evaluate(comp, task):
     families = set(task["families"])
     cls = index_classes(comp.assignment)
     dv = dict(task["dimvec"])
+    for c, v in list(dv.items()):
+        if v == "sym":
+            import z3 as _z3
+
+            dv[c] = _z3.Int(f"dim_{c}")  # a sparse-only dimension: free in [0, 2^31-1]
     setup = Setup(comp, dv, task["N"])
     fn = comp.functions["evaluate"]
     args = list(comp.formats.keys())
@@ -182,7 +187,7 @@ def _jsonable(x):
     return str(x)
 
 
-def build_tasks(requests, D, N, families, dim_mode="corners", max_paths=20000, time_budget=600):
+def build_tasks(requests, D, N, families, dim_mode="corners", max_paths=20000, time_budget=600, symbolic_dims=False):
     """One task per (request, dimension vector).  Requests are compiled once here to find the
     index classes (refusals become a single task that records the refusal)."""
     tasks = []
@@ -203,12 +208,23 @@ def build_tasks(requests, D, N, families, dim_mode="corners", max_paths=20000, t
             tasks.append({"assignment": r.assignment, "formats": dict(r.formats), "dimvec": dv,
                           "N": N, "families": list(families), "max_paths": max_paths,
                           "time_budget": time_budget})
+        if symbolic_dims:
+            # indexes every tensor stores only in compressed levels and every term mentions: their size is
+            # a free symbol (no dense loop may depend on it), the other sizes stay at D
+            from .kprog import eligible_classes
+
+            el = eligible_classes(comp)
+            if el and len(r.formats) <= 3:
+                dv = {c: ("sym" if c in el else D) for c in classes}
+                tasks.append({"assignment": r.assignment, "formats": dict(r.formats), "dimvec": dv,
+                              "N": N, "families": list(families), "max_paths": max_paths,
+                              "time_budget": time_budget, "symbolic_dimension": True})
     return tasks
 
 
 def _cost_estimate(task):
     n = task.get("N", 2)
-    c = 1.0
+    c = 4.0 if task.get("symbolic_dimension") else 1.0
     for name, f in task.get("formats", {}).items():
         c *= (n + 1) ** f.count("s")
     for v in task.get("dimvec", {}).values():
